@@ -6,12 +6,21 @@ pub mod c01;
 pub mod c02;
 pub mod c03;
 pub mod c04;
+pub mod c05;
 pub mod c06;
 pub mod c07;
 pub mod c08;
 pub mod c09;
 pub mod c10;
+pub mod c15;
 pub mod c16;
+pub mod c14;
+pub mod c18;
+pub mod c11;
+pub mod c12;
+pub mod c13;
+pub mod c17;
+pub mod c19;
 pub mod c20;
 
 #[derive(Clone, Copy, Debug, PartialEq, Eq)]
@@ -48,7 +57,7 @@ impl Ctx {
     }
 }
 
-pub const ALL: &[&str] = &["C01", "C02", "C03", "C04", "C08", "C20"];
+pub const ALL: &[&str] = &["C01", "C02", "C03", "C04", "C05", "C06", "C07", "C08", "C09", "C10", "C11", "C12", "C13", "C14", "C15", "C16", "C17", "C18", "C19", "C20"];
 
 pub fn run_property(id: &str, ctx: &Ctx) -> Option<Report> {
     Some(match id {
@@ -56,12 +65,21 @@ pub fn run_property(id: &str, ctx: &Ctx) -> Option<Report> {
         "C02" => c02::run(ctx),
         "C03" => c03::run(ctx),
         "C04" => c04::run(ctx),
+        "C05" => c05::run(ctx),
         "C06" => c06::run(ctx),
         "C07" => c07::run(ctx),
         "C08" => c08::run(ctx),
         "C09" => c09::run(ctx),
         "C10" => c10::run(ctx),
+        "C15" => c15::run(ctx),
         "C16" => c16::run(ctx),
+        "C14" => c14::run(ctx),
+        "C18" => c18::run(ctx),
+        "C11" => c11::run(ctx),
+        "C12" => c12::run(ctx),
+        "C13" => c13::run(ctx),
+        "C17" => c17::run(ctx),
+        "C19" => c19::run(ctx),
         "C20" => c20::run(ctx),
         _ => return None,
     })
@@ -74,12 +92,21 @@ pub fn replay_property(id: &str, section: &str, case: &Value) -> Option<Result<(
         "C02" => c02::replay(section, case),
         "C03" => c03::replay(section, case),
         "C04" => c04::replay(section, case),
+        "C05" => c05::replay(section, case),
         "C06" => c06::replay(section, case),
         "C07" => c07::replay(section, case),
         "C08" => c08::replay(section, case),
         "C09" => c09::replay(section, case),
         "C10" => c10::replay(section, case),
+        "C15" => c15::replay(section, case),
         "C16" => c16::replay(section, case),
+        "C14" => c14::replay(section, case),
+        "C18" => c18::replay(section, case),
+        "C11" => c11::replay(section, case),
+        "C12" => c12::replay(section, case),
+        "C13" => c13::replay(section, case),
+        "C17" => c17::replay(section, case),
+        "C19" => c19::replay(section, case),
         "C20" => c20::replay(section, case),
         _ => return None,
     })
